@@ -100,9 +100,41 @@ def dag_cases(tier: str) -> List[Dict[str, Any]]:
     return out
 
 
+#: a window whose partition_by / order_by column is created or overwritten by the IMMEDIATELY PRECEDING extend: the SQL
+#: extend-merge must not fold the windowed extend into that extend (merge on / off must agree)
+def struct_cases() -> List[Dict[str, Any]]:
+    out = []
+    firsts = [
+        ("new-p-int", {"p": "k % 2"}, "p"),
+        ("new-p-cmp", {"p": "(x > 0).if_else(1, 0)"}, "p"),
+        ("new-p-sum", {"p": "k + 1", "q": "x * 2"}, "p"),
+        ("overwrite-k", {"k": "k % 2"}, "k"),
+        ("overwrite-g", {"g": "g.coalesce('a')"}, "g"),
+        ("overwrite-y", {"y": "y * -1"}, "y"),
+    ]
+    for fname, first, p in firsts:
+        seconds = [
+            ("sum-partition-p", {"ops": {"s": "x.sum()"}, "partition_by": [p]}),
+            ("max-count-partition-p", {"ops": {"s": "x.max()", "n": "x.count()"}, "partition_by": [p]}),
+            ("cumsum-order-p", {"ops": {"c": "x.cumsum()"}, "partition_by": ["g"] if p != "g" else ["k"], "order_by": [p]}),
+            ("cumsum-order-p-reverse", {"ops": {"c": "x.cumsum()"}, "partition_by": 1, "order_by": [p], "reverse": [p]}),
+            ("sum-partition-g-p", {"ops": {"s": "x.sum()"}, "partition_by": (["g", p] if p != "g" else ["k", p])}),
+        ]
+        for sname, second in seconds:
+            for pre in ([], [["select_rows", {"expr": "k >= 0"}]]):
+                for post in ([], [["extend", {"ops": {"z1": "k + 2"}}]]):
+                    if pre and post:
+                        continue
+                    steps = list(pre) + [["extend", {"ops": dict(first)}], ["extend", dict(second)]] + list(post)
+                    out.append({"kind": "struct", "id": "struct:%s|%s|pre%d|post%d" % (fname, sname, len(pre), len(post)), "spec": {"table": "d", "cols": D_COLS, "steps": steps}})
+    return out
+
+
 def build_case(case):
     if case["kind"] == "corpus":
         return C.build(case["cspec"])
+    if case["kind"] == "struct":
+        return O.build_pipe(case["spec"])
     from data_algebra import TableDescription
 
     d = TableDescription(table_name="d", column_names=D_COLS)
@@ -119,6 +151,8 @@ def build_case(case):
 def describe_case(case) -> str:
     if case["kind"] == "corpus":
         return C.describe(case["cspec"])
+    if case["kind"] == "struct":
+        return O.describe_pipe(case["spec"])
     P = "d" + "".join(".%s(%s)" % (op, json.dumps(p)) for op, p in PREFIXES[case["prefix"]])
     f = lambda nm: "P" + "".join(".%s(%s)" % (op, json.dumps(p)) for op, p in EXT[nm])  # noqa: E731
     comb = ".natural_join(%s, on=['g','k'], jointype=%r)" % (f(case["right"]), case["combine"][1]) if case["combine"][0] == "join" else ".concat_rows(%s, id_column=%r)" % (f(case["right"]), case["combine"][1])
@@ -127,10 +161,17 @@ def describe_case(case) -> str:
 
 def make_cases(tier: str, seed: int) -> List[Dict[str, Any]]:
     out = []
-    grids = [(1, False), (2, True)] if tier == "quick" else [(1, False), (2, False)]
+    grids = [(1, False), (2, True)] if tier == "quick" else [(1, False), (2, True), (2, False)]
+    seen_ids = set()
     for depth, reduced in grids:
-        for spec in C.gen_pipelines(depth, tier, two_table=True, backends=BACKENDS, reduced=reduced):
-            out.append({"kind": "corpus", "id": "corpus:" + "+".join(spec["meta"]["ids"]), "cspec": {"table": spec["table"], "steps": spec["steps"]}})
+        for i, spec in enumerate(C.gen_pipelines(depth, tier, two_table=True, backends=BACKENDS, reduced=reduced)):
+            cid = "corpus:" + "+".join(spec["meta"]["ids"])
+            if cid in seen_ids:
+                continue
+            if depth == 2 and not reduced and i % 2 != seed % 2:
+                continue  # thorough: the full depth-2 grid in two halves (rotated by the seed); the reduced grid always
+            seen_ids.add(cid)
+            out.append({"kind": "corpus", "id": cid, "cspec": {"table": spec["table"], "steps": spec["steps"]}})
     have = set(c["id"] for c in out)
 
     def add(spec):
@@ -151,9 +192,9 @@ def make_cases(tier: str, seed: int) -> List[Dict[str, Any]]:
             add(spec)
     if tier == "thorough":
         for i, spec in enumerate(C.gen_pipelines(3, tier, two_table=True, backends=BACKENDS, reduced=True)):
-            if i % 8 == seed % 8:
+            if i % 16 == seed % 16:
                 add(spec)
-    return out + dag_cases(tier)
+    return out + dag_cases(tier) + struct_cases()
 
 
 # --------------------------------------------------------------------------------------------------
